@@ -131,6 +131,7 @@ class Ephem(Speaker):
         """Change the frames of all points"""
         for orb in self:
             orb.frame = frame
+        self._refresh_interp()
 
     @property
     def form(self):  # pragma: no cover
@@ -142,6 +143,13 @@ class Ephem(Speaker):
         """Change the form of all points"""
         for orb in self:
             orb.form = form
+        self._refresh_interp()
+
+    def _refresh_interp(self):
+        """The interpolator keeps its own array of the coordinates: rebuild it
+        when the points have been converted in place"""
+        if hasattr(self, "_interp"):
+            self._interp.ys = np.asarray(self._orbits)
 
     def interpolate(self, date):
         """Interpolate data at a given date
